@@ -257,6 +257,19 @@ def _loader_case(case):
     df4, avg = loader.fsc_with_average(mask, seed=seed, n_set=n_set, dfreq=dfreq)
     case.check(df.equals(df4), "fsc_with_average frame differs")
     case.check(np.allclose(avg, (h0s[0] + h1s[0]) / 2, atol=1e-6), "fsc_with_average image is not the mean of the half-maps")
+    # the same entry points without mean subtraction
+    raw = loader.fsc_with_halfmaps(mask, seed=seed, n_set=n_set, dfreq=dfreq, squeeze=False, zero_norm=False)
+    split_raw = np.asarray(loader.average_split(n_set=n_set, seed=seed, squeeze=False, output_shape=shape))
+    got_raw = np.stack([np.stack([raw.halfmaps[0][i], raw.halfmaps[1][i]]) for i in range(n_set)])
+    case.check(np.allclose(got_raw, split_raw, atol=1e-5), "fsc_with_halfmaps(zero_norm=False) half-maps are not the split "
+               "averages", None)
+    for i in range(n_set):
+        _compare(case, raw.fsc["freq"].to_numpy(), raw.fsc[f"FSC-{i}"].to_numpy(), split_raw[i, 0] * used_mask,
+                 split_raw[i, 1] * used_mask, dfq, "fsc_with_halfmaps(zero_norm=False)")
+    df5, avg5 = loader.fsc_with_average(mask, seed=seed, n_set=n_set, dfreq=dfreq, zero_norm=False)
+    case.check(df5.equals(raw.fsc), "fsc_with_average(zero_norm=False) differs from fsc_with_halfmaps(zero_norm=False)", None)
+    case.check(np.allclose(avg5, (split_raw[0, 0] + split_raw[0, 1]) / 2, atol=1e-5),
+               "fsc_with_average(zero_norm=False) image is not the mean of the raw half-maps", None)
 
 
 def run(case):
